@@ -62,10 +62,18 @@ def export_models(mc_cfg):
 
 def level_traces(tid0, d, levels, histories, rng, meta, desc, cap=4000):
     """drain the real generator for each level under each cache history"""
-    g = omen.load_real(d)
     model, ids = omen.neutral_model(d)
     out = []
     tid = tid0
+    try:
+        g = omen.load_real(d)
+    except core.MachineryError as ex:
+        # the guesser refuses a model the harness wrote according to the format: nothing of any level is generated
+        for lv in levels:
+            tid += 1
+            out.append({'tid': tid, 'kind': 'raises', 'm': model, 'level': lv})
+            meta[tid] = dict(desc, level=lv, history='load', error='the OMEN loader refused the model: ' + str(ex)[-160:])
+        return out, tid
     for hist in histories:
         if hist == 'fresh':
             order, opt = list(levels), None
@@ -128,6 +136,7 @@ def model_of_trainer(ot):
 
 
 N_PREFIXED = [0]
+n_model_drained = [0]
 n_reordered = [0]
 n_counted_only = [0]
 n_counted_by_generator = [0]
@@ -215,7 +224,8 @@ def main(pid, tier, seed):
             d = os.path.join(work, 'r%d' % k)
             order = [None, 'by_level', 'reversed'][k % 3]
             n_reordered[0] += order is not None
-            omen.write_model(d, m, order=order)
+            # every fourth model without a newline after the last line of its files (boundary 'ln10': the last line is '10')
+            omen.write_model(d, m, order=order, final_newline=(k % 4 != 3))
             levels = list(range(0, omen.max_useful_level(m) + 1))
             if b in ('ln10', 'ip10'):
                 levels = [10, 11, 12, 20]
@@ -252,10 +262,27 @@ def main(pid, tier, seed):
                         ipk.add(json.dumps(kk))
                         extra.append([kk, 10])
             mm = dict(m, ip=m['ip'] + extra)
+            # ... and what the real generator emits for the same model written as rule files (one model in three)
+            gen_of = {}
+            if tid % 3 == 0:
+                dm = os.path.join(work, 'ks%d' % tid)
+                omen.write_model(dm, mm)
+                try:
+                    gm = omen.load_real(dm)
+                except core.MachineryError:
+                    gm = None
+                optm = omen.new_optimizer()
+                for lv in range(1, maxlv + 1):
+                    if gm is None:
+                        gen_of[lv] = -2
+                        continue
+                    ss_, done_, err_ = omen.drain(gm, lv, optm, cap=20000)
+                    gen_of[lv] = len(set(ss_)) if (done_ and err_ is None) else (-1 if err_ == 'cap' else -2)
+                n_model_drained[0] += 1
             tid += 1
             traces.append({'tid': tid, 'kind': 'keyspace', 'm': mm,
-                           'rows': [[lv, int(ks[lv]), -1, 1] for lv in range(1, maxlv + 1)]})
-            meta[tid] = {'kind': 'calc_omen_keyspace on a model-checked model', 'model': m}
+                           'rows': [[lv, int(ks[lv]), gen_of.get(lv, -1), 1] for lv in range(1, maxlv + 1)]})
+            meta[tid] = {'kind': 'calc_omen_keyspace on a model-checked model', 'model': m, 'generator_counts': gen_of}
         for ti_, (name, pws, ngram, asz, cov) in enumerate(trainings(tier, rng)):
             res = train_maybe_prefixed(ti_, pws, ngram, asz, cov)
             if not res['ok']:
@@ -273,11 +300,11 @@ def main(pid, tier, seed):
             rows = []
             opt = omen.new_optimizer()
             for lv in sorted(ksp):
-                if ksp[lv] >= 10 ** 9 or lv > 10:
+                if ksp[lv] >= 10 ** 9 or lv > 13:
                     continue            # (TLC's 32-bit integers)
                 if g is None:
                     strings, done, err = [], False, 'load_rules failed'
-                elif ksp[lv] > (1500 if tier == 'quick' else 20000) or lv > 8:
+                elif ksp[lv] > (1500 if tier == 'quick' else 20000) or lv > 13:
                     strings, done, err = [], False, 'cap'     # counted by the specification only (Omen.tla: KeyspaceDP), not drained
                     n_counted_only[0] += 1
                 else:
@@ -356,7 +383,7 @@ def main(pid, tier, seed):
             with contextlib.redirect_stderr(io.StringIO()):
                 sc = OmenScorer(res['dir'], 'utf-8', 18)
             g = omen.load_real(od)
-            lmax = 5
+            lmax = 12           # (levels >= 10 are where lengths and initial n-grams that training never saw live)
             where = {}
             complete = True
             opt = omen.new_optimizer()
@@ -377,6 +404,12 @@ def main(pid, tier, seed):
                         break
             cands.update(list(where)[:150])
             cands.update(['Z' + pws[0], pws[0] + '~', pws[0][:ngram - 1], pws[0][:ngram], 'a' * 21, 'a' * 22, ''])
+            # every length from 1 to 9 (lengths no training password has carry the highest length level), spelled with the
+            # n-grams of training passwords so that only the length decides
+            for L in range(1, 10):
+                for src in pws[:4]:
+                    if src:
+                        cands.add((src * 10)[:L])
             cl = []
             for s in sorted(cands):
                 tr = find_omen_level(ot, s)
@@ -473,7 +506,7 @@ def main(pid, tier, seed):
     nontriv = [t for t in traces if (t['kind'] == 'level' and len(t['ev']) > 1) or t['kind'] in ('agree', 'keyspace')]
     distinct = len({json.dumps({k: v for k, v in t.items() if k != 'tid'}, sort_keys=True) for t in nontriv})
     s = nontriv[min(5, len(nontriv) - 1)] if nontriv else traces[0]
-    cov = {'smoothing': smoothing, 'models_written_with_lines_sorted_by_level_or_reversed': n_reordered[0], 'trainings_fed_in_prefixcount_form': N_PREFIXED[0], 'levels_too_large_to_drain_whose_keyspace_the_specification_still_counted': n_counted_only[0], 'levels_whose_training_passwords_were_counted_in_the_generator_output': n_counted_by_generator[0], 'states': mc['states'], 'transitions': mc['transitions'],
+    cov = {'smoothing': smoothing, 'model_space_models_also_drained_from_the_real_generator': n_model_drained[0], 'models_written_with_lines_sorted_by_level_or_reversed': n_reordered[0], 'trainings_fed_in_prefixcount_form': N_PREFIXED[0], 'levels_too_large_to_drain_whose_keyspace_the_specification_still_counted': n_counted_only[0], 'levels_whose_training_passwords_were_counted_in_the_generator_output': n_counted_by_generator[0], 'states': mc['states'], 'transitions': mc['transitions'],
            'traces_validated_against_impl': len(traces),
            'samples': [{'meta': {k: v for k, v in meta[s['tid']].items() if k != 'model'}, 'trace': core.short(s, 700)}],
            'model_checking': mc, 'evaluations': len(traces), 'distinct_nontrivial': distinct,
